@@ -342,6 +342,54 @@ fn reload_part(rep: &Report) {
     }
 }
 
+/// Free text in the header: the values of COMMENT, HTS_VOICE_VERSION, FULLCONTEXT_FORMAT and FULLCONTEXT_VERSION run to the end
+/// of the line and may contain the header's own punctuation (':', '=', ',', brackets).  The voice must load, the text fields
+/// must read back as written, and everything else must equal the voice loaded from the unedited file.
+fn header_text_part(rep: &Report) {
+    let base_bytes = GenCfg { gv: true, nstate: 2, ..GenCfg::default() }.bytes();
+    let base = load_voice_bytes(&base_bytes).expect("generated voice");
+    let text = String::from_utf8_lossy(&base_bytes).to_string();
+    let edits: Vec<(&str, &str)> = vec![
+        ("COMMENT:", "COMMENT:see http://example.org/voices/a:b"),
+        ("COMMENT:", "COMMENT:built 12:30:05"),
+        ("COMMENT:", "COMMENT:x[1]:y, a=b"),
+        ("COMMENT:", "COMMENT::"),
+        ("HTS_VOICE_VERSION:1.0", "HTS_VOICE_VERSION:1.0:beta"),
+        ("FULLCONTEXT_FORMAT:HTS_TTS_JPN", "FULLCONTEXT_FORMAT:HTS_TTS_JPN:v2"),
+        ("FULLCONTEXT_VERSION:1.0", "FULLCONTEXT_VERSION:1.0:2"),
+        ("FULLCONTEXT_VERSION:1.0", "FULLCONTEXT_VERSION:a=1"),
+    ];
+    for (from, to) in edits {
+        let Some(at) = text.find(&format!("{}\n", from)) else {
+            rep.guard(false, &format!("header line {:?} not found in the generated voice", from));
+            continue;
+        };
+        let mut bytes = base_bytes[..at].to_vec();
+        bytes.extend(to.as_bytes());
+        bytes.extend(&base_bytes[at + from.len()..]);
+        rep.eval(1);
+        rep.cmp(1);
+        let rp = json!({"voice": "generated", "header_line": to});
+        match catch(|| load_voice_bytes(&bytes)) {
+            Err(p) => rep.violation("header-text", format!("header line {:?}: loading panics: {}", to, p), rp),
+            Ok(Err(e)) => rep.violation("header-text", format!("a voice whose header has the line {:?} (free text containing the header's own punctuation) is rejected: {}", to, e), rp),
+            Ok(Ok(v)) => {
+                let value = &to[to.find(':').unwrap() + 1..];
+                let mut want = base.clone();
+                match &to[..to.find(':').unwrap()] {
+                    "HTS_VOICE_VERSION" => want.metadata.hts_voice_version = value.to_string(),
+                    "FULLCONTEXT_FORMAT" => want.metadata.fullcontext_format = value.to_string(),
+                    "FULLCONTEXT_VERSION" => want.metadata.fullcontext_version = value.to_string(),
+                    _ => {}
+                }
+                if v != want {
+                    rep.violation("header-text", format!("header line {:?}: the loaded voice is not the base voice with that text field (version fields: {:?} / {:?} / {:?})", to, v.metadata.hts_voice_version, v.metadata.fullcontext_format, v.metadata.fullcontext_version), rp);
+                }
+            }
+        }
+    }
+}
+
 /// all binary tree shapes with k internal nodes, leaves numbered in order 1..
 fn shapes(k: usize) -> Vec<TreeSpec> {
     fn build(k: usize) -> Vec<TreeSpec> {
@@ -583,7 +631,7 @@ fn construct_label(path: &[(String, bool)], questions: &HashMap<String, Vec<Stri
 
 pub fn run(tier: Tier) -> i32 {
     let rep = Report::new("C04", tier, "model_checking");
-    rep.set_rule("SCOPE: (a) bundled voice (also re-packed: data blocks in reverse order and/or separated by 0xFF filler): every model (duration, 3 streams x 5 states, 2 GV) x every label of the label space (corpus + one-group recombinations of the cover set + every distinct corpus value of every field group in 2-4 base labels + typed sweeps of every numeric field over 0..N + phoneme symbols from the voice's own patterns) vs an independent reader of the file + HTS wildcard matcher, bit-exact on means/variances/voicing weight and equal on tree/PDF index; (b) every distinct question of the bundled voice x the label space: crate matcher vs wildcard oracle; 8 synthetic regex-fallback questions (pairs whose pattern lists read the same once glued: {A,B} against {AB}), each object asked about the label space and about 300000 (thorough 500000) further distinct labels; (c) generated files: all binary tree shapes with <= 3 internal nodes x 4 leaf numberings (in order, reversed, permuted, tied: one PDF reached by several branches) x quoted/unquoted x question triples from a pool of real questions (incl. the regex-fallback ones) x layout deviations (states, streams, vector length, window set, order in which the state trees are listed, numbering and listing order of the internal nodes: sequential, non-contiguous ids, ids counted backwards, yes-subtree rows first; the six orders of the spectrum options, also with a bare token or an unknown key inserted at each position; stream keys MGC/F0/BAP instead of MCP/LF0/LPF; header keys in reverse order, data blocks in reverse order and/or separated by filler bytes), one question name defined with other patterns in the log-F0 tree section; plus one large file (a 300-node tree with 301 PDFs, 300 questions, one question with 300 patterns), checked against both the independent reader and the generator's spec (sentinel floats), on a stride after a Serialize/Deserialize round trip of the loaded voice; (d) metadata, options, windows, engine defaults vs the header; (e) a path overwritten with another voice of the same length and modification time while an engine loaded from it is alive, loaded again; distinct = (file, model, state, label); non-trivial = lookups through a tree with more than one leaf");
+    rep.set_rule("SCOPE: (a) bundled voice (also re-packed: data blocks in reverse order and/or separated by 0xFF filler): every model (duration, 3 streams x 5 states, 2 GV) x every label of the label space (corpus + one-group recombinations of the cover set + every distinct corpus value of every field group in 2-4 base labels + typed sweeps of every numeric field over 0..N + phoneme symbols from the voice's own patterns) vs an independent reader of the file + HTS wildcard matcher, bit-exact on means/variances/voicing weight and equal on tree/PDF index; (b) every distinct question of the bundled voice x the label space: crate matcher vs wildcard oracle; 8 synthetic regex-fallback questions (pairs whose pattern lists read the same once glued: {A,B} against {AB}), each object asked about the label space and about 300000 (thorough 500000) further distinct labels; (c) generated files: all binary tree shapes with <= 3 internal nodes x 4 leaf numberings (in order, reversed, permuted, tied: one PDF reached by several branches) x quoted/unquoted x question triples from a pool of real questions (incl. the regex-fallback ones) x layout deviations (states, streams, vector length, window set, order in which the state trees are listed, numbering and listing order of the internal nodes: sequential, non-contiguous ids, ids counted backwards, yes-subtree rows first; the six orders of the spectrum options, also with a bare token or an unknown key inserted at each position; stream keys MGC/F0/BAP instead of MCP/LF0/LPF; header keys in reverse order, data blocks in reverse order and/or separated by filler bytes), one question name defined with other patterns in the log-F0 tree section; plus one large file (a 300-node tree with 301 PDFs, 300 questions, one question with 300 patterns), checked against both the independent reader and the generator's spec (sentinel floats), on a stride after a Serialize/Deserialize round trip of the loaded voice; (d) metadata, options, windows, engine defaults vs the header; (e) free-text header values containing ':', '=', ',' and brackets; (f) a path overwritten with another voice of the same length and modification time while an engine loaded from it is alive, loaded again; distinct = (file, model, state, label); non-trivial = lookups through a tree with more than one leaf");
     rep.assume("labels limited to the stated label space; generated trees have at most 3 internal nodes; the label text matched by the oracle is the label's own serialisation");
     // ---------- question pool from the bundled voice ----------
     let v0b = v0_bytes();
@@ -656,6 +704,7 @@ pub fn run(tier: Tier) -> i32 {
     });
     rep.note("questions", json!({"distinct": qlist.len(), "regex_fallback": regex_q.load(Ordering::Relaxed), "answered_yes_somewhere": q_yes.load(Ordering::Relaxed), "never_yes_in_label_space": never_yes.load(Ordering::Relaxed)}));
     reload_part(&rep);
+    header_text_part(&rep);
     // ---------- (b') synthetic questions that need the regex fallback ----------
     // pairs of pattern lists that read the same once glued together ({A, B} = "A or B" against {AB} = one pattern), and
     // one object of each asked about several hundred thousand distinct labels (anything remembered per label text, or per
